@@ -362,4 +362,26 @@ theorem C20_src_shifted_optimum (g : List Rat → Rat) (f : Mat → Option (List
     simp only [List.map_cons, List.map_nil]
     rw [(TFV.Bench.C20_shifted g (o.take m.ncols) bias hg (hg0 _)).2]
 
+/-- CEC2005 F1 (shifted sphere) read ENTIRELY off translated code - the wrapper `TestShiftedFunction.__call__` around `Sphere.f`: every
+    value is at least the bias and the first D table entries are mapped to the bias, for every D up to the table length -/
+theorem C20_src_F1_optimum (o : List Rat) (bias : Rat) (m : Mat) (hlen : m.ncols ≤ o.length) :
+    (∃ ys, Bench_Shifted_call Bench_Sphere_f o bias m = some ys ∧ ys.length = m.rows.length ∧ ∀ y ∈ ys, bias ≤ y) ∧
+    Bench_Shifted_call Bench_Sphere_f o bias { ncols := m.ncols, rows := [o.take m.ncols] } = some [bias] :=
+  C20_src_shifted_optimum sphere Bench_Sphere_f C20_src_sphere (fun z => (TFV.Bench.C20_sphere z).1)
+    (fun n => ((TFV.Bench.C20_sphere (List.replicate n 0)).2).mpr (fun a ha => List.eq_of_mem_replicate ha)) o bias m hlen
+
+/-- CEC2005 F2 (shifted Schwefel 1.2) the same way -/
+theorem C20_src_F2_optimum (o : List Rat) (bias : Rat) (m : Mat) (hlen : m.ncols ≤ o.length) :
+    (∃ ys, Bench_Shifted_call Bench_Schwefel12_f o bias m = some ys ∧ ys.length = m.rows.length ∧ ∀ y ∈ ys, bias ≤ y) ∧
+    Bench_Shifted_call Bench_Schwefel12_f o bias { ncols := m.ncols, rows := [o.take m.ncols] } = some [bias] :=
+  C20_src_shifted_optimum schwefel12 Bench_Schwefel12_f C20_src_schwefel12 (fun z => (TFV.Bench.C20_schwefel12 z).1)
+    (fun n => by simpa using (TFV.Bench.C20_schwefel12 (List.replicate n 0)).2) o bias m hlen
+
+/-- CEC2005 F9 (shifted Rastrigin) the same way, for every `cs ≤ 1` with `cs 0 = 1` -/
+theorem C20_src_F9_optimum (cs : Rat → Rat) (h1 : ∀ a, cs a ≤ 1) (h0 : cs 0 = 1) (o : List Rat) (bias : Rat) (m : Mat) (hlen : m.ncols ≤ o.length) :
+    (∃ ys, Bench_Shifted_call (Bench_Rastrigin_f cs) o bias m = some ys ∧ ys.length = m.rows.length ∧ ∀ y ∈ ys, bias ≤ y) ∧
+    Bench_Shifted_call (Bench_Rastrigin_f cs) o bias { ncols := m.ncols, rows := [o.take m.ncols] } = some [bias] :=
+  C20_src_shifted_optimum (rastrigin cs) (Bench_Rastrigin_f cs) (C20_src_rastrigin cs) (fun z => (TFV.Bench.C20_rastrigin cs h1 h0 z).1)
+    (fun n => by simpa using (TFV.Bench.C20_rastrigin cs h1 h0 (List.replicate n 0)).2) o bias m hlen
+
 end TFV.Properties.Src.BenchKernels
